@@ -323,10 +323,10 @@ func (r *Raft) onInstallSnapRequest(req *installSnapReq, c *conn) (rpcResult, er
 		}
 		termsMatched := metaTerm == meta.term
 		if termsMatched {
-			// remove <=meta.index, but retain following it
-			if err = r.compactLog(meta.index); err != nil {
-				return unexpectedErr, err
-			}
+			// our log agrees with the snapshot: retain it. it is not
+			// compacted here, because entries up to meta.index may
+			// not have been applied to fsm yet (commitIndex is behind
+			// meta.index), and fsm is not restored in this case
 			discardLog = false
 		}
 	}
